@@ -179,7 +179,10 @@ func symbolizeMapping(source string, offset int64, syms func(string, string) ([]
 		if l.Mapping != m {
 			continue
 		}
-		if line, ok := lines[l.Address]; ok {
+		// Only locations without any line were sent to the service. An
+		// answer for an address that was not asked for must not replace
+		// the lines a location already has.
+		if line, ok := lines[l.Address]; ok && len(l.Line) == 0 {
 			l.Line = []profile.Line{line}
 		}
 	}
